@@ -52,6 +52,9 @@ func vh_C09_execute() {
 	_ = err
 	// the cancel came before Execute stamped the root frame with the current id
 	// (already expired context, or cancel during compilation)
+	// the activation that was running when the cancel arrived completes at most
+	// the operation in flight (no known exception)
+	vAssert("C09.sequence.running-activation-stops", vhAfterStopSame <= 1)
 	vKnown("C09.cancel-before-execute-stamp", vhStopAt == t0)
 	// run() stamps the frame of every init function and of main with the
 	// *current* interpreter id, so they start even though the evaluation was cancelled
@@ -61,17 +64,42 @@ func vh_C09_execute() {
 
 // ---- C10: definitions survive a cancelled evaluation --------------------
 
-// vhCancelledEval models a complete EvalWithContext that was cancelled:
-// Execute stamps the root frame, the program runs, stop() bumps the id.
+// vhCancelledEval: a complete evaluation that gets cancelled: the real
+// Execute runs a program whose only step is hit by the real stop().
 func vhCancelledEval(i *Interpreter) {
-	i.frame.setrunid(i.runid())
-	i.id++ // stop()
+	i.done = make(chan struct{}) // as EvalWithContext does
+	root := &node{interp: i}
+	root.start = root
+	root.exec = func(f *frame) bltn {
+		i.stop()
+		return nil
+	}
+	i.Execute(&Program{pkgName: "main", root: root})
 }
 
-// vhLaterEval models the start of a later, successful Eval (Execute stamps
-// the root frame with the current id).
-func vhLaterEval(i *Interpreter) {
-	i.frame.setrunid(i.runid())
+// vhLaterEval: a later, successful evaluation (the real Execute) whose program
+// is the single step given.
+func vhLaterEval(i *Interpreter, step func(f *frame)) {
+	root := &node{interp: i}
+	root.start = root
+	root.exec = func(f *frame) bltn {
+		if step != nil {
+			step(f)
+		}
+		return nil
+	}
+	i.Execute(&Program{pkgName: "main", root: root})
+}
+
+// vhCallNode builds "f()" for an interpreted function node def (no arguments,
+// no results) and generates its exec closure with the real call generator.
+func vhCallNode(i *Interpreter, def *node) *node {
+	c0 := &node{interp: i, kind: identExpr, findex: notInFrame, val: def, typ: def.typ}
+	stmt := &node{interp: i, kind: exprStmt}
+	n := &node{interp: i, kind: callExpr, anc: stmt, child: []*node{c0}, typ: def.typ}
+	c0.anc = n
+	call(n)
+	return n
 }
 
 func vhFuncNode(i *Interpreter, base int) *node {
@@ -89,22 +117,23 @@ func vh_C10_closure() {
 	vhResetClock()
 	vhStopAt = -1
 	i := vhNewInterp()
-	vhLaterEval(i) // the defining evaluation
 	def := vhFuncNode(i, 0)
 	def.findex, def.level = 0, 0
 	getFunc(def)
-	def.exec(i.frame) // executes "f := func() {...}" in the defining Eval
+	// the defining evaluation executes "f := func() {...}"
+	vhLaterEval(i, func(f *frame) { def.exec(f) })
 	fct := i.frame.data[0]
 	ncancel := vConcretizeInt(vNondetInt("ncancel"), 0, 2)
 	for k := 0; k < ncancel; k++ {
 		vhCancelledEval(i)
 	}
 	fromHost := vNondetBool("fromHost")
-	if !fromHost {
-		vhLaterEval(i)
-	}
 	vReach("C10.use.closure")
-	vCallMade(fct, nil)
+	if fromHost {
+		vCallMade(fct, nil)
+	} else {
+		vhLaterEval(i, func(*frame) { vCallMade(fct, nil) })
+	}
 	vKnown("C10.closure-dead-after-cancel", ncancel > 0)
 	vAssert("C10.use.closure", vhSteps >= 1)
 }
@@ -114,45 +143,88 @@ func vh_C10_wrapper() {
 	vhResetClock()
 	vhStopAt = -1
 	i := vhNewInterp()
-	vhLaterEval(i)
 	def := vhFuncNode(i, 0)
 	use := &node{interp: i, val: def, typ: def.typ}
-	w := genFunctionWrapper(use)(i.frame)
+	var w reflect.Value
+	vhLaterEval(i, func(f *frame) { w = genFunctionWrapper(use)(f) })
 	ncancel := vConcretizeInt(vNondetInt("ncancel"), 0, 2)
 	for k := 0; k < ncancel; k++ {
 		vhCancelledEval(i)
 	}
 	fromHost := vNondetBool("fromHost")
-	if !fromHost {
-		vhLaterEval(i)
-	}
 	vReach("C10.use.wrapper")
-	vCallMade(w, nil)
+	if fromHost {
+		vCallMade(w, nil)
+	} else {
+		vhLaterEval(i, func(*frame) { vCallMade(w, nil) })
+	}
 	vKnown("C10.wrapper-dead-until-next-eval", vAnd(ncancel > 0, fromHost))
 	vAssert("C10.use.wrapper", vhSteps >= 1)
 }
 
-// named function called from a later Eval: the call site creates the frame
-// from the (re-stamped) root frame; modelled by run() on the root frame.
+// named function: the call site "f()" was compiled (real call generator)
+// either by the defining evaluation, inside another function g, or by the later
+// evaluation itself; the later evaluation (real Execute) executes it.
 func vh_C10_named() {
 	vhResetClock()
 	vhStopAt = -1
 	i := vhNewInterp()
-	vhLaterEval(i)
-	n := vhNode(i, 0)
+	def := vhFuncNode(i, 0)
+	early := vNondetBool("callSiteCompiledBeforeCancel")
+	var site *node
+	if early {
+		site = vhCallNode(i, def)
+	}
+	vhLaterEval(i, nil) // the defining evaluation
 	ncancel := vConcretizeInt(vNondetInt("ncancel"), 0, 2)
 	for k := 0; k < ncancel; k++ {
 		vhCancelledEval(i)
 	}
-	vhLaterEval(i)
+	if !early {
+		site = vhCallNode(i, def)
+	}
 	vReach("C10.use.named")
-	i.run(n, i.frame)
+	vhLaterEval(i, func(f *frame) {
+		// the statement runs inside a function frame of the later evaluation
+		g := newFrame(f, 0, f.runid())
+		site.exec(g)
+	})
 	vAssert("C10.use.named", vhSteps >= 1)
+}
+
+// ---- C09: a function value wrapped during an evaluation and called after that
+// evaluation was cancelled (e.g. a deferred interpreted function run while the
+// cancelled goroutine unwinds) must not start.
+func vh_C09_wrapper() {
+	vhResetClock()
+	vhStopAt = -1
+	i := vhNewInterp()
+	def := vhFuncNode(i, 0)
+	use := &node{interp: i, val: def, typ: def.typ}
+	viaCall := vNondetBool("viaCallSite")
+	var site *node
+	if viaCall {
+		site = vhCallNode(i, def)
+	}
+	vReach("C09.inherit")
+	i.done = make(chan struct{})
+	vhLaterEval(i, func(f *frame) {
+		g := newFrame(f, 0, f.runid()) // a function frame of this evaluation
+		w := genFunctionWrapper(use)(g)
+		i.stop() // the evaluation is cancelled here
+		before := vhSteps
+		if viaCall {
+			site.exec(g)
+		} else {
+			vCallMade(w, nil)
+		}
+		vAssert("C09.inherit.no-start-after-cancel", vhSteps == before)
+	})
 }
 
 var vhRegistry = map[string]func(){
 	"vh_C09_gate": vh_C09_gate, "vh_C09_execute": vh_C09_execute,
-	"vh_C10_closure": vh_C10_closure, "vh_C10_wrapper": vh_C10_wrapper, "vh_C10_named": vh_C10_named,
+	"vh_C09_wrapper": vh_C09_wrapper, "vh_C10_closure": vh_C10_closure, "vh_C10_wrapper": vh_C10_wrapper, "vh_C10_named": vh_C10_named,
 }
 
 var vhIntVars = map[string]*int{"vhMaxSteps": &vhMaxSteps, "vhNExec": &vhNExec}
